@@ -1496,10 +1496,14 @@ def sensors_battery():
                     return ret.strip()
         return None
 
+    try:
+        names = os.listdir(POWER_SUPPLY_PATH)
+    except FileNotFoundError:
+        # No power_supply class at all (kernel built without it, some
+        # containers / VMs): there is no battery.
+        return None
     bats = [
-        x
-        for x in os.listdir(POWER_SUPPLY_PATH)
-        if x.startswith('BAT') or 'battery' in x.lower()
+        x for x in names if x.startswith('BAT') or 'battery' in x.lower()
     ]
     if not bats:
         return None
